@@ -41,6 +41,9 @@ CALLEES = {
     "add3w": ("def add3w(x: Qint[4]) -> Qint[4]:\n\treturn x + 3", ["Qint[4]"], "Qint[4]"),
     "deep": ("def deep(x: bool, n: Qint[2]) -> Tuple[bool, Tuple[bool, Qint[2]]]:\n\treturn (not x, (x, n + 1))", ["bool", "Qint[2]"], "Tuple[bool, Tuple[bool, Qint[2]]]"),
     "deep2": ("def deep2(n: Qint[2], x: bool) -> Tuple[Tuple[Qint[2], bool], Tuple[bool, Qint[2]]]:\n\treturn ((n, x), (not x, n + 1))", ["Qint[2]", "bool"], "Tuple[Tuple[Qint[2], bool], Tuple[bool, Qint[2]]]"),
+    # callee LOCALS named like the machinery's own symbols (_ret..., the prefixed names of formals, temporaries)
+    "hadd": ("def hadd(a: bool, b: bool) -> Tuple[bool, bool]:\n\t_ret_carry = a and b\n\treturn (a ^ b, _ret_carry)", ["bool", "bool"], "Tuple[bool, bool]"),
+    "lret": ("def lret(x: Qint[2], y: bool) -> Qint[2]:\n\t_retx = x + 1\n\tlret_x = _retx + 1\n\treturn lret_x if y else _retx", ["Qint[2]", "bool"], "Qint[2]"),
     "tmid": ("def tmid(t: Tuple[bool, Qint[4], bool]) -> Qint[4]:\n\treturn t[1] if (t[0] or t[2]) else 1", ["Tuple[bool, Qint[4], bool]"], "Qint[4]"),
 }
 
@@ -116,6 +119,11 @@ CALLERS = [
     (["add3w"], "def c(a: Qint[2]) -> Qint[4]:\n\tacc = a\n\tacc = add3w(acc)\n\tacc = add3w(acc)\n\treturn acc"),
     (["inc"], "def c(a: Qint[2], b: Qint[2]) -> Qint[2]:\n\tx = a\n\tr = inc(x)\n\tx = b\n\treturn r + inc(x)"),
     (["neg"], "def c(a: bool, b: bool) -> bool:\n\tx = a\n\tr = neg(x)\n\tx = b\n\treturn r and neg(x)"),
+    (["hadd"], "def c(x: bool, y: bool) -> Tuple[bool, bool]:\n\treturn hadd(x, y)"),
+    (["hadd"], "def c(x: bool, y: bool) -> bool:\n\th = hadd(y, x)\n\treturn h[0] and not h[1]"),
+    (["hadd"], "def c(x: bool, y: bool, z: bool) -> Tuple[bool, bool]:\n\th = hadd(x, y)\n\tk = hadd(h[0], z)\n\treturn (k[0], h[1] or k[1])"),
+    (["lret"], "def c(a: Qint[2], b: bool) -> Qint[2]:\n\treturn lret(a, b)"),
+    (["lret"], "def c(x: Qint[2], _retx: bool) -> Qint[2]:\n\treturn lret(x, _retx)"),
     # tuple results nested two levels, with a multi-bit element inside the inner tuple
     (["deep"], "def c(a: bool, n: Qint[2]) -> Qint[2]:\n\tr = deep(a, n)\n\treturn r[1][1]"),
     (["deep"], "def c(a: bool, n: Qint[2]) -> bool:\n\tr = deep(a, n)\n\treturn r[1][0] and not r[0]"),
